@@ -7,6 +7,7 @@ import base64
 import hashlib
 import io
 import struct
+import urllib.parse
 import uuid
 import xml.etree.ElementTree as ET
 
@@ -307,6 +308,14 @@ def pro_kids(pro):
     return out
 
 
+def pro_la_url(pro):
+    """the LA_URL element of the WRMHEADER inside a PRO"""
+    _, recs, _ = own_parse_pro(pro)
+    xml = ET.fromstring(recs[0][2].decode('utf-16-le'))
+    e = xml.find('.//%sLA_URL' % WRM_NS)
+    return None if e is None else (e.text or '')
+
+
 PR_SYS = bytes.fromhex('9a04f07998404286ab92e65be0885f95')
 CK_SYS = bytes.fromhex('1077efecc0b24d02ace33c1e52e2fb4b')
 
@@ -337,7 +346,12 @@ def manifest_suite(ctx, env):
         for mname in manifests:
             for mode in (['vod'] if ctx.quick() else ['vod', 'live']):
                 for sel in sels:
-                    extra = ctx.rng.choice(['', '&playready__version=2.0', '&playready__version=4.0', '&playready__la_url=https://lic.example/a%3Fx%3D1%26y%3D2'])
+                    # a licence URL given on the request (percent-encoded once, as a query value is) must appear in the PRO exactly:
+                    # reserved characters, and a '+' and a '%41' that are part of the URL itself
+                    la_choices = ['https://lic.example/a?x=1&y=2', 'https://lic.example/rm?tok=ab+cd%41&z=a b']
+                    la_req = ctx.rng.choice([None, None, la_choices[0], la_choices[1]])
+                    extra = ctx.rng.choice(['', '&playready__version=2.0', '&playready__version=4.0']) if la_req is None else \
+                        '&playready__la_url=' + urllib.parse.quote(la_req, safe='')
                     url = '/dash/%s/bbb/%s?drm=%s%s' % (mode, mname, sel, extra)
                     r = c.get(url)
                     ctx.count('http:drm-manifest')
@@ -417,6 +431,15 @@ def manifest_suite(ctx, env):
                                 if 'pro' not in want.get('playready', set()):
                                     ctx.violation('%s: mspr:pro present although pro is not among the PlayReady locations' % url, {'url': url})
                                 praw = base64.b64decode((pro.text or '').strip())
+                                if la_req is not None:
+                                    try:
+                                        got_la = pro_la_url(praw)
+                                    except Exception:  # noqa
+                                        got_la = None
+                                    ctx.count('http:pro-la-url')
+                                    if got_la != la_req:
+                                        ctx.violation('%s: the request names the licence URL %r, the mspr:pro carries %r' % (url, la_req, got_la),
+                                                      {'url': url})
                                 if kid not in pro_kids(praw):
                                     ctx.violation('%s: mspr:pro does not name the %s track key id' % (url, ct), {'url': url})
                                 if PR_SYS in init_pssh and pssh_fields(init_pssh[PR_SYS])[2] != praw:
